@@ -6,12 +6,12 @@ import families as F
 KEEP_BG = ["groups", "push_stages", "pipeline_layout"]
 
 
-def drive_and_judge(rep, prop, cases, family, keep, enforce=None, detail=0, extra_env=None):
+def drive_and_judge(rep, prop, cases, family, keep, enforce=None, detail=0, extra_env=None, case_timeout=None):
     """real generator on every case -> trace -> TLC judges `prop` on every recorded observation"""
     if not cases:
         return
     by_id = {c["id"]: c for c in cases}
-    trace = run_vdriver(cases, "%s_%s" % (prop, family), keep=keep, detail=detail)
+    trace = run_vdriver(cases, "%s_%s" % (prop, family), keep=keep, detail=detail, case_timeout=case_timeout)
     tr = validate_trace(trace, enforce or prop, env=extra_env)
     rep.evaluations += len(cases)
     for c in cases:
@@ -47,4 +47,115 @@ def check_C11(tier, seed):
     return finish(rep)
 
 
-CHECKS = {"C11": check_C11}
+def cases_from_S(exported, prefix, family, vary_validate=True, o=None):
+    cases = []
+    for i, e in enumerate(exported):
+        oo = dict(o or F.opts())
+        if vary_validate and i % 3 == 1:
+            oo["validate"] = "all"
+        cases.append({"id": "%s-%05d" % (prefix, i), "family": family, "S": e["S"], "opts": oo})
+    return cases
+
+
+def random_shader_cases(rng, n, prefix, family, **kw):
+    cases = []
+    for i in range(n):
+        S = F.rand_shader(rng, **kw)
+        cases.append({"id": "%s-%05d" % (prefix, i), "family": family, "S": S,
+                      "opts": F.opts(validate=rng.choice(["none", "all"]))})
+    return cases
+
+
+STAGE_SELFTESTS = [("MC_StagesCtx.tla", "MC_StagesCtx_mut.cfg", "Handled without LoopContinuing")]
+
+
+def stages_mc(rep, quick, memo, check_work):
+    shape = {"NH": "2", "NE": "1", "NG": "2"} if quick else {"NH": "3", "NE": "1", "NG": "2"}
+    shape["Memo"] = "TRUE" if memo else "FALSE"
+    shape["CheckWork"] = "TRUE" if check_work else "FALSE"
+    r1 = run_mc("MC_Stages.tla", "MC_Stages.cfg", workers=8, consts=shape)
+    rep.add_mc("MC_Stages(shape slice %s)" % shape, r1, "all call-graph DAGs; marks = Vis at Finish; marks subset of Vis always")
+    ctx = {"DA": "1", "DC": "2"} if quick else {"DA": "2", "DC": "2"}
+    ctx["Memo"] = shape["Memo"]
+    r2 = run_mc("MC_StagesCtx.tla", "MC_StagesCtx.cfg", workers=8, consts=ctx)
+    rep.add_mc("MC_StagesCtx(context slice %s)" % ctx, r2, "access and call at every context path")
+    return r1, r2
+
+
+def check_C03(tier, seed):
+    rep = Report("C03", tier, seed)
+    rng = random.Random(seed)
+    quick = tier == "quick"
+    r1, r2 = stages_mc(rep, quick, memo=MEMO, check_work=False)
+    for mod, cfg, what in STAGE_SELFTESTS:
+        rep.add_selftest("%s (%s)" % (cfg, what), run_mc(mod, cfg, workers=4, expect_violation=True))
+    if not quick:
+        r3 = run_mc("MC_Stages.tla", "MC_Stages.cfg", workers=12, consts={"NH": "2", "NE": "2", "NG": "2", "Export": "FALSE", "Memo": "TRUE" if MEMO else "FALSE"})
+        rep.add_mc("MC_Stages(2 helpers x 2 entries, no export)", r3)
+    rep.exhaustive = True
+    keep = ["groups", "push_stages"]
+    drive_and_judge(rep, "C03", cases_from_S(r1.cases, "shape", "stages-shape"), "shape", keep)
+    drive_and_judge(rep, "C03", cases_from_S(r2.cases, "ctx", "stages-ctx"), "ctx", keep)
+    drive_and_judge(rep, "C03", random_shader_cases(rng, 1200 if quick else 30000, "rnd", "stages-random", n_fn=(0, 6), n_entry=(1, 5), depth=3, push=0.5), "random", keep)
+    return finish(rep)
+
+
+def structs_mc(rep, quick, early, check_work, export=True):
+    c = {"NS": "2", "NGl": "1", "Early": "TRUE" if early else "FALSE", "CheckWork": "TRUE" if check_work else "FALSE",
+         "Export": "TRUE" if export else "FALSE"}
+    r = run_mc("MC_Structs.tla", "MC_Structs.cfg", workers=8, consts=c)
+    rep.add_mc("MC_Structs(%s)" % c, r, "all struct role/reachability patterns; closure model = HostReach")
+    return r
+
+
+def check_C08(tier, seed):
+    rep = Report("C08", tier, seed)
+    rng = random.Random(seed)
+    quick = tier == "quick"
+    r = structs_mc(rep, quick, early=EARLY, check_work=False)
+    if not quick:
+        r3 = run_mc("MC_Structs.tla", "MC_Structs.cfg", workers=12, consts={"NS": "3", "NGl": "1", "Export": "FALSE", "Early": "TRUE" if EARLY else "FALSE"})
+        rep.add_mc("MC_Structs(NS=3, no export)", r3)
+    exported = r.cases
+    rep.exhaustive = not quick
+    keep = ["structs"]
+    drive_and_judge(rep, "C08", cases_from_S(exported, "role", "struct-roles", vary_validate=False, o=F.opts(enc=True)), "roles", keep)
+    drive_and_judge(rep, "C08", random_shader_cases(rng, 800 if quick else 20000, "rnd", "structs-random"), "random", keep)
+    return finish(rep)
+
+
+def check_C20(tier, seed):
+    rep = Report("C20", tier, seed)
+    quick = tier == "quick"
+    # model level: the tight bounds (each function once per entry point, each type expanded once)
+    stages_mc(rep, quick, memo=MEMO, check_work=True)
+    structs_mc(rep, quick, early=EARLY, check_work=True, export=False)
+    # self-tests: without the memo / early return the tight bounds are violated
+    rep.add_selftest("MC_Stages(Memo=FALSE, CheckWork)", run_mc("MC_Stages.tla", "MC_Stages.cfg", workers=4, expect_violation=True,
+                     consts={"Memo": "FALSE", "CheckWork": "TRUE", "Export": "FALSE"}, tag="st_nomemo"))
+    rep.add_selftest("MC_Structs(Early=FALSE, CheckWork)", run_mc("MC_Structs.tla", "MC_Structs.cfg", workers=4, expect_violation=True,
+                     consts={"Early": "FALSE", "CheckWork": "TRUE", "Export": "FALSE"}, tag="ms_noearly"))
+    keep = ["mods"]
+    drive_and_judge(rep, "C20", F.growth_cases(quick), "growth", keep, case_timeout=20)
+    rng = random.Random(seed)
+    drive_and_judge(rep, "C20", random_shader_cases(rng, 400 if quick else 10000, "rnd", "c20-random", n_fn=(3, 12), n_entry=(1, 6), depth=3), "random", keep, case_timeout=20)
+    return finish(rep)
+
+
+def check_C13(tier, seed):
+    rep = Report("C13", tier, seed)
+    rng = random.Random(seed)
+    quick = tier == "quick"
+    stages_mc(rep, quick, memo=MEMO, check_work=False)
+    keep = ["push_stages", "pipeline_layout"]
+    cases = F.push_cases(rng, 600 if quick else 12000)
+    drive_and_judge(rep, "C13", cases, "push", keep)
+    return finish(rep)
+
+
+# Does the specification of the stage walk memoise callees per entry point? (the code does since the C20 fix)
+MEMO = True
+# Does the type closure return early on a type it has already inserted? (the code does since the C20 fix)
+EARLY = True
+
+CHECKS = {"C11": check_C11, "C03": check_C03, "C08": check_C08, "C20": check_C20, "C13": check_C13}
